@@ -339,6 +339,32 @@ def run(ctx, broken):
     for i in range(n * 2):
         cs.append(mixed_selector_case(rng).case())
     cs += cancel_cases(rng, ("range", "logic", "fixed", "var"), 1 if ctx.tier == "quick" else 6)
+    # SYSTEMATIC logic rows: every pair of operand quads, both operations, each of the six ways to break exactly one identity
+    # component (left / right / output quad out of range by +4, output quad wrong, product wire at another root / off by one)
+    for isx in (False, True):
+        for qa in range(4):
+            for qb in range(4):
+                for j in range(6):
+                    a, b, d = rng.fe() % 1000, rng.fe() % 1000, rng.fe() % 1000
+                    qd = (qa ^ qb) if isx else (qa & qb)
+                    an, bn, dn, cw = 4 * a + qa, 4 * b + qb, 4 * d + qd, qa * qb
+                    if j == 0: an += 4
+                    elif j == 1: bn += 4
+                    elif j == 2: dn += 4
+                    elif j == 3: dn = 4 * d + ((qd + 1) % 4)
+                    elif j == 4:
+                        alts = logic_alt_roots(qa, qb, isx)
+                        if not alts:
+                            continue
+                        cw = alts[0]
+                    else: cw = cw + 1
+                    p = Prog(); p.tags = ["raw-logic-systematic", "violate"]
+                    q = [0] * 11; q[5] = R - 1 if isx else 1; q[8] = R - 1 if isx else 1
+                    ws = [p.w(x) for x in (a, b, cw, d)]
+                    nx = [p.w(an), p.w(bn), p.w(rng.fe()), p.w(dn)]
+                    p.op(raw(q, None, [p.ref(x) for x in ws])); p.op(raw([0] * 11, None, [p.ref(x) for x in nx]))
+                    p.unsat()
+                    cs.append(p.case())
     r.run(cs)
     # ---- selected row on the last row of a full domain (wrap-around to row 0) and size boundaries
     pre = []
